@@ -152,3 +152,36 @@ func c06Superset(n int, symbolicDB bool) {
 
 func VerifHarness_C06_Superset3Q()  { c06Superset(3, false) }
 func VerifHarness_C06_Superset3Q3() { c06Words3 = true; c06Superset(3, false); c06Words3 = false }
+
+// superset with action words the user typed ("list", "show") that occur in most commands
+func VerifHarness_C06_SupersetAction() {
+	mk := func(cmd, desc string) Command {
+		c := Command{Command: cmd, Description: desc}
+		vFill(&c)
+		return c
+	}
+	db := &Database{Commands: []Command{
+		mk("ls", "list files"), mk("ps", "list show processes"), mk("crontab", "list cron jobs"), mk("cat", "show file"), mk("zz", "yy"),
+	}}
+	db.BuildUniversalIndex()
+	db.buildTFIDFSearcher()
+	q := c06Word("w1", 4, 4) // the solver may make it "list", "show", "find", ...
+	if verifBool("two") {
+		q = q + " " + []string{"cron", "files", "zz"}[verifIntRange("second", 0, 2)]
+	}
+	off := db.SearchUniversal(q, SearchOptions{Limit: 10, AllPlatforms: true})
+	on := db.SearchUniversal(q, SearchOptions{Limit: 10, AllPlatforms: true, UseNLP: true})
+	for _, a := range off {
+		found := false
+		for _, b := range on {
+			if a.Command == b.Command {
+				found = true
+			}
+		}
+		verifAssert(found, "C06: a command returned with enhancement off is still a candidate with it on")
+	}
+	verifReach("checked")
+	if len(off) > 0 {
+		verifReach("nonempty")
+	}
+}
